@@ -8,6 +8,10 @@ use crate::interpreter::string_utils::to_ascii_string;
 
 pub fn run<S: InterpreterTrait>(interpreter: &mut S) -> Result<(), RuntimeError> {
     let f: f64 = interpreter.context()[0].try_cast()?;
+    // arithmetic does not check its results; the conversion has no bits for these
+    if !f.is_finite() {
+        return Err(RuntimeError::Overflow);
+    }
     let bytes = f64_to_bytes(f);
     let s: String = to_ascii_string(&bytes);
     interpreter
